@@ -3,17 +3,27 @@
 //! Output: JSON lines like a harness shard (viol / stats / machinery).
 
 mod c11;
+mod c15;
+mod c18;
 mod util;
 
 fn main() {
     let args: Vec<String> = std::env::args().collect();
-    if args.len() < 3 {
+    if args.len() < 2 {
         eprintln!("usage: tools <prop> <tier> [args]");
         std::process::exit(2);
+    }
+    match args[1].as_str() {
+        "c15w" => return c15::worker(&args[2..]),
+        "c15one" => return c15::one(),
+        "c15compile" => return c15::compile_child(&args[2..]),
+        _ => {}
     }
     let tier = refpeg::corpus::Tier::parse(&args[2]);
     match args[1].as_str() {
         "c11" => c11::run(tier),
+        "c15" => c15::run(tier, &args[3]),
+        "c18" => c18::run(tier),
         other => {
             eprintln!("unknown tool {other}");
             std::process::exit(2);
